@@ -8,6 +8,7 @@ CONSTANTS
   MaxSubs = 3
 INVARIANT TypeOK
 INVARIANT ConsultedInOrder
+INVARIANT ToldMatches
 INVARIANT OneDecision
 INVARIANT NothingForExit
 INVARIANT Answered
